@@ -136,7 +136,7 @@ def main(tier, seed):
     for p in points:
         if p[4] not in gflag_sets:
             gflag_sets.append(p[4])
-    parallel(lambda g: ref.build(0, [x for x in g if not x.startswith("-debugdir")]), gflag_sets, workers=3)
+    parallel(lambda g: ref.build(0, [x for x in g if not x.startswith("-debugdir") and x != "PIDNS"]), gflag_sets, workers=3)
 
     lock = threading.Lock()
 
@@ -189,7 +189,7 @@ def main(tier, seed):
         env2 = sb.env({"GARBLE_VERIF_TRACE": str(trace), "GARBLE_VERIF_ID": "rerun"})
         r2 = run(cmd, cwd=src, env=env2, timeout=1500)
         want = ref.build(0, [x for x in gflags if not x.startswith("-debugdir")])
-        witness = {"point": label.split("#")[0].split("@")[0], "label": label, "init": [st, bn], "gflags": gflags, "killed": killed,
+        witness = {"point": label.split("#")[0].split("@")[0], "label": label, "init": [st, bn], "gflags": gflags, "killed": killed, "pid_namespace": pidns,
                    "fs_after_kill": list(fs_state)}
         files = {"trace.ndjson": trace, "rerun-stderr.txt": r2.stderr[-4000:], "crashed-stderr.txt": err1.decode("utf-8", "replace")[-2000:]}
         do_pipeline = False
